@@ -204,4 +204,37 @@ Section Histories.
     - unfold do_space_unroll. rewrite R5. simpl. unfold do_space_unroll_fresh. cbv zeta.
       rewrite Er. simpl. rewrite R2, R3. reflexivity.
   Qed.
+  (* engine-side option handling, in ANY program state: with space_unroll=True the program that is
+     executed is space-unrolled and the returned state is restricted to the timebins measured
+     pulses; without it the program is (space-)unrolled one way or the other; modes are selected
+     exactly when the executed program is space-unrolled; the lock flag is untouched. *)
+  Theorem tdm_options_effective : forall st space_kw shots crop cropv,
+    let r := tdm_options N sh T cs space_kw shots crop cropv st in
+    let st1 := fst (fst (fst r)) in
+    (space_kw = true -> st_space st1 <> None /\ snd (fst (fst r)) = Some ((if crop then cropv else 0), T)) /\
+    is_unrolled st1 = true /\
+    (st_space st1 = None <-> snd (fst (fst r)) = None) /\
+    st_locked st1 = st_locked st.
+  Proof.
+    intros st space_kw shots crop cropv. unfold tdm_options. cbv zeta.
+    set (s := match shots with Some k => k | None => 1 end).
+    destruct space_kw.
+    - destruct (st_space st) eqn:S.
+      + simpl. rewrite S. repeat split; try discriminate; try reflexivity.
+        unfold is_unrolled. rewrite S. destruct (st_unrolled st); reflexivity.
+      + assert (E : st_space (fst (do_space_unroll N sh T cs s st)) <> None /\
+                    st_locked (fst (do_space_unroll N sh T cs s st)) = st_locked st).
+        { unfold do_space_unroll. rewrite S. unfold do_space_unroll_fresh. simpl. split; [discriminate|reflexivity]. }
+        destruct E as [E1 E2]. simpl.
+        destruct (st_space (fst (do_space_unroll N sh T cs s st))) eqn:S2; [|contradiction].
+        repeat split; try discriminate; try reflexivity; try assumption.
+        unfold is_unrolled. rewrite S2. destruct (st_unrolled _); reflexivity.
+    - destruct (is_unrolled st) eqn:U.
+      + simpl. repeat split; try discriminate; try assumption.
+        * destruct (st_space st); [discriminate|reflexivity].
+        * destruct (st_space st); [discriminate|reflexivity].
+      + unfold is_unrolled in U. destruct (st_unrolled st) eqn:Un; [discriminate|].
+        destruct (st_space st) eqn:S; [discriminate|].
+        unfold do_unroll. rewrite Un, S. simpl. repeat split; try discriminate; reflexivity.
+  Qed.
 End Histories.
